@@ -85,10 +85,13 @@ async fn resolve_forwarding_notimeout<'a>(
             {
                 Ok(resolved) => {
                     let soa_rr = resolved.soa_rr().cloned();
-                    let mut r_rrs = resolved.rrs();
+                    let r_rrs = resolved.rrs();
                     let mut combined_rrs = Vec::with_capacity(rrs.len() + r_rrs.len());
                     combined_rrs.append(&mut rrs);
-                    combined_rrs.append(&mut r_rrs);
+                    // the upstream nameserver answers with the rest of the
+                    // alias chain, which can lead back to a name we have
+                    // already followed: don't repeat those records.
+                    prioritising_merge(&mut combined_rrs, r_rrs);
                     Ok(ResolvedRecord::NonAuthoritative {
                         rrs: combined_rrs,
                         soa_rr,
